@@ -125,6 +125,13 @@ class C16(Property):
         ctx.cls(f"dim{dim}", f"field:{spec['field']['kind']}", f"smoothing:{spec['smoothing']}", "odd-axis" if any(n % 2 for n in shape) else "even-axes")
         field = ScalarField(grid, data)
         snap = data.tobytes()
+        # an earlier analysis on a sibling grid (same shape, other aspect ratio / spacing) must leave no trace
+        try:
+            sib = make_grid(shape, [spacing[0] * 3.0] + [x * 0.5 for x in spacing[1:]], origin)
+            get_structure_factor(ScalarField(sib, data), smoothing=None)
+            get_structure_factor(ScalarField(sib, data))
+        except Exception:  # noqa: BLE001 - not judged
+            pass
         k_user, S_user = get_structure_factor(field, smoothing=None)
         ctx.require(field.data.tobytes() == snap, "field-modified", "get_structure_factor modified the field")
         if not ctx.require(k_user.shape == (N - 1,) and S_user.shape == (N - 1,), "shape", f"k {k_user.shape}, S {S_user.shape} for {N} cells"):
